@@ -424,6 +424,14 @@ def _find_arrow(m, f):
 # --------------------------------------------------------------------------
 # assembling
 # --------------------------------------------------------------------------
+# rules applied to every module, any number of matches (none on the pinned tree): constructs a change is likely to introduce and that
+# the installed Verus cannot process, with an equivalent it can
+COMMON_REWRITES = [
+    dict(name='R-io-error-new', kind='re', count=None,
+         pat=r'(?:std::)?io::Error::new\(\s*([^,()]+?),\s*"(?:[^"\\]|\\.)*"\s*,?\s*\)', rep=r'crate::vstubs::io_error_new(\1)'),
+]
+
+
 def load_modules():
     import importlib.util
     spec = importlib.util.spec_from_file_location('modules', os.path.join(SPECS, 'modules.py'))
@@ -457,7 +465,7 @@ def build(repo_src, only=None, force_ext=None):
         sources[md['name']] = p
         src = rsx.strip_test_modules(src)
         src = strip_docs(src)
-        src, log = apply_rewrites(src, md.get('rewrites', []), md['file'], warnings)
+        src, log = apply_rewrites(src, md.get('rewrites', []) + COMMON_REWRITES, md['file'], warnings)
         rewrites_log += [(md['file'],) + x for x in log]
         fnspecs, extra = parse_spec_file(os.path.join(SPECS, 'contracts', md['name'].replace('::', '_') + '.spec'))
         src, unc = inject(src, fnspecs, md['file'], warnings, taint, md['name'], force_ext)
